@@ -10,6 +10,8 @@ Judge: `FootJudge` — on the implementation's answers: footprint == sum of the 
        every munmap/mremap lies inside memory held, after free-everything the heap is canonical
        (one free chunk or `top` per segment plus its trailer), and over workload x N rounds the
        per-round peak footprint does not grow any more in the second half of the rounds."""
+import os
+
 from . import common as C
 from . import c03
 
@@ -154,6 +156,69 @@ def rounds_lines(r, items, order, n, policy="l", interleave=False):
     return lines
 
 
+NL = os.path.join(C.VERIF, "harness-nolibc")
+PROBE = os.path.join(NL, "c04probe")
+
+
+def build_probe(ctx, threaded):
+    tdir = os.path.join(NL, "target-c04-dyn" + ("-thr" if threaded else ""))
+    cmd = ["cargo", "build", "--offline", "-q", "--target-dir", tdir] + (["--features", "threaded"] if threaded else [])
+    rc, out = C.sh(cmd, cwd=PROBE, env={"RUSTFLAGS": "-C link-arg=-nostartfiles"}, timeout=3000)
+    if rc != 0:
+        return None, "\n".join(out.splitlines()[-30:])
+    return os.path.join(tdir, "debug", "c04probe"), ""
+
+
+def probe_runs(ctx, r, quick):
+    """the real GlobalAlloc glue (GlobalDlMalloc, with the Mutex when threaded) in a no-libc executable whose only
+    mapper is the allocator (plus thread stacks): VmSize after every round of a repeated workload"""
+    import subprocess
+    obs = []
+    for threaded in (False, True):
+        exe, err = build_probe(ctx, threaded)
+        if exe is None:
+            ctx.broken.append({"probe_build_failed": err})
+            ctx.violation({"kind": "probe-build-failed", "threaded": threaded}, {"error": err}, no_input=True)
+            continue
+        for wi in range(4 if quick else 12):
+            kind = ["small", "mixed", "large"][wi % 3]
+            items, _ = workload(r, kind)
+            items = [(min(sz, 8 << 20), al) for sz, al in items[:40]]
+            order = r.below(3)
+            rounds = 40 if quick else (2000 if wi < 3 else 200)
+            threads = 3 if threaded else 1
+            script = "".join("b %d %d\n" % it for it in items) + "order %d\nrounds %d\nthreads %d\ngo\n" % (order, rounds, threads)
+            p = subprocess.run([exe], input=script, stdout=subprocess.PIPE, stderr=subprocess.PIPE, text=True, timeout=3000)
+            ctx.evaluations += rounds
+            lines = [l.split() for l in p.stdout.splitlines()]
+            vm = [int(l[2]) * 4096 for l in lines if l and l[0] == "r" and len(l) == 4]
+            bad = sum(int(l[3]) for l in lines if l and l[0] == "r" and len(l) == 4)
+            sig = None
+            if p.returncode != 0 or len(vm) != rounds or not lines or lines[-1] != ["done"]:
+                sig, why = "probe-died", "probe exited %s after %d of %d rounds: %s" % (p.returncode, len(vm), rounds, p.stdout[-200:])
+            elif bad:
+                sig, why = "probe-block-damaged", "%d blocks misaligned / not zeroed / altered" % bad
+            else:
+                demand = threads * sum(int(sz * 1.5) + al + 64 for sz, al in items)
+                best = max(vm[:rounds // 2])
+                records = 0
+                for v in vm[rounds // 2:]:
+                    if v > best:
+                        records, best = records + 1, v
+                if records > (rounds - rounds // 2) // 2:
+                    sig, why = "vmsize-keeps-growing", "VmSize set a new record in %d of the last %d rounds" % (records, rounds - rounds // 2)
+                elif max(vm) - vm[0] > 3 * demand + (16 << 20):
+                    sig, why = "vmsize-exceeds-demand", "VmSize grew by %d, more than 3 x demand %d + 16 MiB" % (max(vm) - vm[0], demand)
+            if sig:
+                ctx.violation({"kind": sig, "threaded": threaded},
+                              {"why": why, "script": script, "how_to_replay": "feed `script` on stdin to " + exe, "vmsize_bytes": vm[:60]})
+            ctx.count(("probe", threaded, kind, order))
+            obs.append({"threaded": threaded, "blocks": len(items), "kind": kind, "rounds": rounds,
+                        "vmsize_first": vm[0] if vm else None, "vmsize_max": max(vm) if vm else None,
+                        "last_growth_round": max([i + 1 for i in range(1, len(vm)) if vm[i] > max(vm[:i])], default=1)})
+    ctx.extra["nolibc_probe"] = obs[:12]
+
+
 def run(ctx):
     ctx.rule = ("cases = workloads (3..60 blocks; small / mixed / large sizes up to 32 MiB, alignments 1..8192, optionally interleaved "
                 "frees; free order LIFO/FIFO/random/every-other) repeated N times with mmap placement below the lowest mapping (as "
@@ -166,7 +231,8 @@ def run(ctx):
         "multi-threaded use goes through GlobalDlMalloc = Mutex<Dlmalloc> (C01 proves the mutex); the sequential allocator is what is "
         "modelled here",
     ]
-    ctx.trusted.append("harness/c03 (walker, arena OS emulation, shadow map); checks/dl_extract.py")
+    ctx.trusted.append("harness/c03 (walker, arena OS emulation, shadow map); checks/dl_extract.py; the no-libc probe "
+                       "harness-nolibc/c04probe (VmSize from /proc/self/statm; observation only)")
     if not c03.prepare(ctx):
         return
     ok = C.lean_prove(ctx, "TinyVerif.Props.C04", drivers=["drv_c03"])
@@ -208,7 +274,7 @@ def run(ctx):
     items, order = workload(r, "mixed")
     nlong = 200 if quick else 2000
     lines = rounds_lines(r, items[:25], order, nlong, "l", True)
-    lines.insert(1, "dump hash")
-    c03.run_histories(ctx, "rounds-long", exe, drv, [lines], judge_factory=lambda: FootJudge(nlong), timeout=3000)
+    c03.run_histories(ctx, "rounds-long", exe, drv, [lines], judge_factory=lambda: FootJudge(nlong), timeout=3000, dump="hash")
+    probe_runs(ctx, r, quick)
     if not ok and not ctx.violations:
         ctx.violation({"kind": "proof-broken"}, {"broken": ctx.broken}, no_input=True)
